@@ -56,6 +56,7 @@ struct Placement
 {
     bool right = true;   // flush against the right guard (over-run detection) or the left one
     unsigned slack = 0;  // bytes between block and that guard; multiple of 16 keeps malloc-like alignment
+    unsigned res = 0;    // block start = 16-aligned address + res (0 = malloc-like; an allocator<unsigned char> may return any)
 };
 
 class World; // owns all arenas: one ledger, ids per arena
@@ -121,7 +122,7 @@ public:
         if (n > cap_bytes) { ++n_alloc_failed; throw std::bad_alloc(); }
         Block b;
         size_t slack = place.slack;
-        size_t body = ((n + slack + 16 + page - 1) / page) * page;
+        size_t body = ((n + slack + 32 + page - 1) / page) * page;
         if (body == 0) body = page;
         b.map_len = body + 2 * page;
         b.map = (unsigned char*)mmap(nullptr, b.map_len, PROT_NONE, MAP_PRIVATE | MAP_ANONYMOUS, -1, 0);
@@ -131,8 +132,9 @@ public:
         mprotect(lo, body, PROT_READ | PROT_WRITE);
         SIM_UNPOISON(lo, body);
         // like malloc, blocks start 16-aligned (gil stores 16/32-bit channels in allocator<unsigned char> memory)
-        if (place.right) { b.ptr = hi - slack - n; b.ptr -= ((uintptr_t)b.ptr) % 16; if (b.ptr < lo) b.ptr = lo; }
-        else b.ptr = lo + (slack / 16) * 16;
+        unsigned res = place.res % 16;
+        if (place.right) { b.ptr = hi - slack - n; b.ptr -= ((uintptr_t)b.ptr + 16 - res) % 16; if (b.ptr < lo) b.ptr = lo + res; }
+        else b.ptr = lo + (slack / 16) * 16 + res;
         b.n = n;
         b.lo_pad = lo; b.lo_pad_n = (size_t)(b.ptr - lo);
         b.hi_pad = b.ptr + n; b.hi_pad_n = (size_t)(hi - (b.ptr + n));
